@@ -204,6 +204,7 @@ impl Point {
     /// If the source length is exactly 32 bytes, then the decoding
     /// outcome (success or failure) should remain hidden from
     /// timing-based side channels.
+    #[cfg_attr(pornin_crrl_verif_cut, inline(never))]
     pub fn set_decode(&mut self, buf: &[u8]) -> u32 {
         // We follow all steps from RFC 8032, section 5.1.3.
 
@@ -299,6 +300,7 @@ impl Point {
     /// Encodes this point into exactly 32 bytes.
     ///
     /// Encoding is always canonical.
+    #[cfg_attr(pornin_crrl_verif_cut, inline(never))]
     pub fn encode(self) -> [u8; 32] {
         let iZ = GF25519::ONE / self.Z;
         let (x, y) = (self.X * iZ, self.Y * iZ);
@@ -921,6 +923,7 @@ impl Point {
     /// is the order of a specific subgroup of the curve. If the source
     /// point is NOT in that subgroup, then what is computed is the
     /// product of the point by an integer in the 0 to L-1 range.
+    #[cfg_attr(pornin_crrl_verif_cut, inline(never))]
     pub fn set_mul(&mut self, n: &Scalar) {
         // Make a 5-bit window: win[i] contains (i+1)*P
         let mut win = [Self::NEUTRAL; 16];
@@ -981,6 +984,7 @@ impl Point {
     ///
     /// This operation is constant-time. It is faster than using the
     /// generic multiplication on `Self::BASE`.
+    #[cfg_attr(pornin_crrl_verif_cut, inline(never))]
     pub fn set_mulgen(&mut self, n: &Scalar) {
         // Recode the scalar into 51 signed digits.
         let sd = Self::recode_scalar(n);
@@ -1079,6 +1083,7 @@ impl Point {
     ///
     /// THIS FUNCTION IS NOT CONSTANT-TIME; it shall be used only with
     /// public data.
+    #[cfg_attr(pornin_crrl_verif_cut, inline(never))]
     pub fn set_mul_add_mulgen_vartime(&mut self, u: &Scalar, v: &Scalar) {
         // Recode the scalars in 5-bit wNAF.
         let sdu = Self::recode_scalar_NAF(&u);
@@ -1166,6 +1171,7 @@ impl Point {
     ///
     /// THIS FUNCTION IS NOT CONSTANT-TIME; it shall be used only with
     /// public data.
+    #[cfg_attr(pornin_crrl_verif_cut, inline(never))]
     pub fn verify_helper_vartime(self,
         R: &Point, s: &Scalar, k: &Scalar) -> bool
     {
